@@ -257,11 +257,25 @@ def r4_loop(ctx, fam):
                   '_handle_eio_disconnect sees `not self._reconnect_task` '
                   'false and never reconnects' % kind, where=w,
                   rid='C10.R8')
+    cleared_seen = set()
     for p in run.paths:
         if not p.normal:
             continue
         waits = [e for e in p.events if e.kind == 'call' and
                  e.callee() == 'wait' and '_reconnect_abort' in U(e.expr)]
+        # a new effort starts with the abort event lowered: a set() left over
+        # from an earlier shutdown() would end it before its first attempt
+        clr = [e for e in p.calls('clear')
+               if '_reconnect_abort' in U(e.expr)]
+        okc = bool(clr) and (not waits or clr[0].idx < waits[0].idx)
+        if okc not in cleared_seen:
+            cleared_seen.add(okc)
+            ctx.check(okc, construct, 'the abort event is cleared before the '
+                      'first back-off wait of an effort', key='abort-cleared',
+                      reason='the effort does not clear _reconnect_abort '
+                      'before waiting on it: after one shutdown() every '
+                      'later effort of this client aborts at its first wait',
+                      where=w)
         attempts = [e for e in p.calls('connect') if e.recv() == 'self']
         # registry pairing
         app = [e for e in p.calls('append')
